@@ -41,7 +41,9 @@ func synGridByName(name string) *synGrid {
 func snapReplay(args []string) int {
 	fs := flag.NewFlagSet("snap-replay", flag.ExitOnError)
 	in := fs.String("in", "-", "")
+	steps := fs.Bool("steps", false, "")
 	fs.Parse(args)
+	recordSteps = *steps
 	out := newJSONL("-")
 	defer out.close()
 	readJSONLines(*in, func(line []byte) {
@@ -110,7 +112,23 @@ type snapRec struct {
 	OX    int        `json:"ox"` // placement of the window (finest pixels) and the group's tile matrix ids: enough to re-run the call
 	OY    int        `json:"oy"`
 	IDs   []int      `json:"ids"`
+	Steps []stepRec  `json:"steps"` // intermediate results of addPointsAndSnap (only with -steps)
 }
+
+// stepRec: one intermediate result reported through snap.VerifTrace, projected like the final result
+type stepRec struct {
+	E     string       `json:"e"`     // seg | ring | drop | asm
+	R     int          `json:"r"`     // ring index (0-based), -1 for asm
+	I     int          `json:"i"`     // vertex index of the segment (seg only)
+	K     int          `json:"k"`     // level as coarsening exponent relative to the group's finest level
+	Pts   [][2]int     `json:"pts"`   // seg: vertices appended; ring: the routed ring as handed to the clean-up
+	O     [][][2]int   `json:"o"`     // ring: outer rings
+	In    [][][2]int   `json:"in"`    // ring: inner rings
+	P     [][][2]int   `json:"p"`     // ring: points and lines
+	Polys [][][][2]int `json:"polys"` // asm: polygons of the level
+}
+
+var recordSteps = false
 
 // snapGrid: where the window of a group sits
 type snapGrid struct {
@@ -214,6 +232,49 @@ func runSnap(sg *snapGrid, poly lpoly, ids []int, cfg snap.Config, w int) snapRe
 		}
 	}
 	var res map[tms20.TMID][]geom.Polygon
+	rec.Steps = []stepRec{}
+	if recordSteps {
+		projRing := func(r [][2]float64) [][2]int {
+			o := [][2]int{}
+			for _, c := range r {
+				q, ex := sg.fromReal(c)
+				if !ex {
+					rec.Exact = false
+				}
+				o = append(o, q)
+			}
+			return o
+		}
+		projRings := func(rs [][][2]float64) [][][2]int {
+			o := [][][2]int{}
+			for _, r := range rs {
+				o = append(o, projRing(r))
+			}
+			return o
+		}
+		snap.VerifTrace = func(ev string, a ...any) {
+			st := stepRec{E: ev, R: -1, Pts: [][2]int{}, O: [][][2]int{}, In: [][][2]int{}, P: [][][2]int{}, Polys: [][][][2]int{}}
+			switch ev {
+			case "seg":
+				st.R, st.I, st.K = a[0].(int), a[1].(int), fin-int(a[2].(uint))
+				st.Pts = projRing(a[3].([][2]float64))
+			case "ring":
+				st.R, st.K = a[0].(int), fin-int(a[1].(uint))
+				st.Pts = projRing(a[2].([][2]float64))
+				st.O, st.In, st.P = projRings(a[3].([][][2]float64)), projRings(a[4].([][][2]float64)), projRings(a[5].([][][2]float64))
+			case "drop":
+				st.R, st.K = a[0].(int), fin-int(a[1].(uint))
+			case "assembled":
+				st.E = "asm"
+				st.K = fin - int(a[0].(uint))
+				for _, p := range a[1].([][][][2]float64) {
+					st.Polys = append(st.Polys, projRings(p))
+				}
+			}
+			rec.Steps = append(rec.Steps, st)
+		}
+		defer func() { snap.VerifTrace = nil }()
+	}
 	t0 := time.Now()
 	func() {
 		defer func() {
@@ -277,7 +338,9 @@ func snapTrace(args []string) int {
 	bias := fs.Float64("bias", 0.5, "probability to align a coordinate to pixel borders/centres")
 	outp := fs.String("out", "-", "")
 	g0 := fs.Int("g0", 0, "first group id")
+	steps := fs.Bool("steps", false, "record the intermediate results of addPointsAndSnap")
 	fs.Parse(args)
+	recordSteps = *steps
 	rng := rand.New(rand.NewSource(*seed))
 	out := newJSONL(*outp)
 	defer out.close()
